@@ -100,6 +100,9 @@ def run(rep, tier):
             kw['params_map'] = {names[2]: decoy}
         if not (per_row_shape and nrows):
             kw['model_shape'] = mshape
+        elif r.random() < 0.4:
+            # a model_shape column AND the keyword: the keyword is documented to be ignored (each row keeps its own window)
+            kw['model_shape'] = r.choice([3, 15, (5, 9)])
         replay = {'model': kind, 'shape': [ny, nx], 'table': {c: np.asarray(getattr(tbl[c], 'value', tbl[c])).tolist() for c in tbl.colnames},
                   'unit': None if unit is None else 'Jy', 'kwargs': {kk: vv for kk, vv in kw.items()}}
         snap_params = {p: np.array(getattr(model, p).value) for p in model.param_names}
@@ -144,8 +147,9 @@ def run(rep, tier):
                  sample={'model': kind, 'shape': [ny, nx], 'nrows': nrows, 'per_row_shape': per_row_shape})
         has_unit = hasattr(img, 'unit')
         # (S) units regardless of which rows overlap
-        if unit is not None and overlap_any and not has_unit:
-            rep.violation('units-lost', 'unit-ful model with an overlapping row but the image carries no unit', replay)
+        if unit is not None and nrows and not has_unit:
+            rep.violation('units-lost' + ('' if overlap_any else ':no-row-overlaps'), 'unit-ful sources but the image carries no unit'
+                          + ('' if overlap_any else ' (no row overlaps the image)'), replay)
             continue
         lines.append(f'render {ny} {nx} | ' + ' | '.join(groups) if groups else f'render {ny} {nx}')
         checks.append((np.asarray(getattr(img, 'value', img), float), has_unit, replay, nrows, tbl, model, kw, (ny, nx)))
